@@ -11,10 +11,12 @@ NOT_DECIDED = ("equality of the decoded values with the original, byte-for-byte 
                "serde_json) are value-level statements.")
 
 RULES = {
+    "C01.R5s": lambda ctx: __import__("rules.decoderrules", fromlist=["x"]).section_errors(ctx, "C01.R5s"),
     "C01.RL": lambda ctx: __import__("rules.common", fromlist=["x"]).loop_exit_rule(ctx, "C01.RL", {'decoder::decode_regular': 0, 'decoder::decode_index': 0, 'encoder::serialize_mappings': 1}),
     "C01.R1": lambda ctx: decoderrules.field_coverage(ctx, "C01.R1"),
     "C01.R2": lambda ctx: decoderrules.handover(ctx, "C01.R2"),
     "C01.R2e": lambda ctx: encrules.optional_keys(ctx, "C01.R2e"),
+    "C01.R2k": lambda ctx: decoderrules.dispatch(ctx, "C01.R2k"),
     "C01.R3e": lambda ctx: encrules.resets(ctx, "C01.R3e"),
     "C01.R3d": lambda ctx: decoderrules.accumulators(ctx, "C01.R3d"),
     "C01.R4e": lambda ctx: encrules.field_order(ctx, "C01.R4e"),
